@@ -339,6 +339,7 @@ class Agg:
         self.fault_fired = 0
         self.cache_pressure = 0
         self.opcode_runs = 0
+        self.opcode_kinds: Dict[str, int] = {}
         self.lock_contention = 0
         self.lock_acquires = 0
         self.explained = 0
@@ -371,6 +372,7 @@ class Agg:
             self.cache_pressure += 1
         if pb["opcode"]:
             self.opcode_runs += 1
+            self.opcode_kinds[str(pb["opcode"])] = self.opcode_kinds.get(str(pb["opcode"]), 0) + 1
         self.lock_contention += r["lock_contention"]
         self.lock_acquires += r["lock_acquires"]
         self.explained += 1 if r["explained"] else 0
@@ -415,6 +417,7 @@ class Agg:
                 "callback_fault_fired_runs": self.fault_fired,
                 "cache_pressure_runs": self.cache_pressure,
                 "opcode_granularity_runs": self.opcode_runs,
+                "opcode_granularity_by_kind": self.opcode_kinds,
                 "lock_contention_blocks": self.lock_contention,
                 "lock_acquires": self.lock_acquires,
                 "fault_free_runs": self.fault_free_runs,
